@@ -63,8 +63,8 @@ Section AnyOperators.
      The classes formerly listed here as open - PDict, PArrayIndex over a literal list, PSequence with pattern items, PRound
      with pattern arguments - are proved in Props/C09More.v (C09_more_sticky: the full statement
        forall f p p', gpat p -> step f p = (Stop, p') -> forall f2, quiet f2 p'   on the extended fragment gpat);
-     the one exception, PArrayIndex over a list of patterns with a pattern index, is the known finding
-     C09-parrayindex-revives (C09_more_arrayindex_revives) *)
+     PArrayIndex over a list of patterns with a pattern index, which used to revive, is sticky since the repair
+     C09-parrayindex-revives (C09_more_arrayindex_sticky: every PArrayIndex stays exhausted until reset()) *)
   Theorem C09_sticky_stable_state : forall f p,
     step binop LMAX f p = (Stop, p) -> dead binop LMAX f p.
   Proof. exact (stop_stable_dead binop LMAX). Qed.
